@@ -1424,7 +1424,8 @@ def gen(rng, tier):
             for i in (-1, -2, -n, -n - 1, -n - 2, -7):
                 yield hist(dt, vals, rtrail(dt, rng, 1.0), [f"ins:{i}:{_vstr(rvalue(dt, rng))}"])
                 yield hist(dt, vals, None, [f"ins:{i}:{_vstr(rvalue(dt, rng))}"])
-    for ta, tb in (("u8", "i8"), ("i8", "u8"), ("u8", "u16"), ("float64", "float16"), ("hex4", "bin1"), ("bool", "u1"), ("uintbe16", "u16")):
+    # (str items of different kinds — hex vs bin — compare as Python strings, not by encoding: not generated)
+    for ta, tb in (("u8", "i8"), ("i8", "u8"), ("u8", "u16"), ("float64", "float16"), ("hex4", "hex8"), ("bool", "u1"), ("uintbe16", "u16"), ("bin3", "bin1")):
         da, db = D(ta), D(tb)
         n = rng.randint(0, 3)
         va = rvals(da, rng, n)
